@@ -126,7 +126,7 @@ Definition words_join_ok (resolved : option te) (ev : list te) : bool :=
   match flat_map (fun t => match t with Word w u => [(w, u)] | _ => [] end) ev with
   | [] => match resolved with None | Some Any => true | _ => false end
   | x :: fam =>
-      match resolved, wordev_join_all x fam with
+      match resolved, wordev_join_all_s x fam with
       | Some e, Some j => te_eqb e (word_of j)
       | Some e, None => is_conflict e
       | None, _ => false
